@@ -33,6 +33,27 @@ def npath(sel: int, path: list[str]) -> str:
     return "@" * sel + ".".join(npath_segment(n) for n in path)
 
 
+# spellings of Edit!BadPaths / Edit!BadValues (every one is refused by NixText!Tokenize / is not one expression)
+BAD_PATH = {"path:empty": lambda at, b: at, "path:empty_segment": lambda at, b: at + b + "..x",
+            "path:trailing_dot": lambda at, b: at + b + ".", "path:leading_dot": lambda at, b: at + "." + b,
+            "path:unterminated_quote": lambda at, b: at + b + '."x', "path:dangling_escape": lambda at, b: at + b + '."x\\',
+            "path:not_identifier": lambda at, b: at + b + ".x y", "path:scope_in_segment": lambda at, b: at + b + ".@x"}
+BAD_VALUE = {"value:empty": "", "value:comment_only": "# nothing\n", "value:unclosed": "{ k = 7;", "value:dangling_operator": "7 +",
+             "value:stray_close": "7 ]", "value:two_statements": "7; 8"}
+# spellings of a well-formed value (the abstract value is the same; `vc' = the comments the text carries)
+VALUE_FORMS = {"": "{v}", "lead_ws": "  {v}", "trail_nl": "{v}\n", "tab": "\t{v}\t", "lead_nl": "\n{v}",
+               "eol_comment": "{v} # note", "lead_block": "/* note */ {v}", "lead_line": "# note\n{v}", "trail_block": "{v} /* note */"}
+
+
+def op_texts(o: dict, form: str = "") -> dict:
+    """npath / vtext of a model operation (malformed requests are spelled here)."""
+    bad = o.get("bad", "")
+    at, b = "@" * o["sel"], ".".join(npath_segment(n) for n in o["path"])
+    np_ = BAD_PATH[bad](at, b) if bad.startswith("path:") else at + b
+    vt = BAD_VALUE[bad] if bad.startswith("value:") else VALUE_FORMS[form].replace("{v}", _val(o["v"], 0))
+    return {"npath": np_, "vtext": vt, "vform": form if o["f"] == "set" and not bad else ""}
+
+
 def model_histories(tier: str, seed: int, run: Run) -> list[dict]:
     """Histories from the specification: every depth-1 transition (exhaustive) + random walks (-simulate)."""
     dig = tlc.spec_digest("Edit")
@@ -86,10 +107,15 @@ def make_cases(hists: list[dict], tier: str, seed: int) -> tuple[list[dict], int
             if has_error(text):
                 discards += 1
                 continue
-            ops = [{"f": st["op"]["f"], "sel": st["op"]["sel"], "path": st["op"]["path"], "v": st["op"]["v"],
-                    "npath": npath(st["op"]["sel"], st["op"]["path"]), "vtext": _val(st["op"]["v"], 0),
-                    "model_res": st["res"], "model_why": st["why"]} for st in h["steps"]]
+            ops = [dict({"f": st["op"]["f"], "sel": st["op"]["sel"], "path": st["op"]["path"], "v": st["op"]["v"],
+                         "bad": st["op"].get("bad", ""), "model_res": st["res"], "model_why": st["why"]}, **op_texts(st["op"]))
+                   for st in h["steps"]]
             cases.append({"id": len(cases) + 1, "text": text, "wrap": w, "ops": ops})
+            if single and ops[0]["f"] == "set" and not ops[0]["bad"] and h["steps"][0]["res"] == "ok" and w == wraps[0]:
+                # the same request with the value spelled differently (surrounding blanks, comments)
+                forms = list(VALUE_FORMS)[1:]
+                for form in (forms if tier == "thorough" else rnd.sample(forms, 2) if rnd.random() < 0.2 else []):
+                    cases.append({"id": len(cases) + 1, "text": text, "wrap": w, "ops": [dict(ops[0], **op_texts(h["steps"][0]["op"], form))]})
             if not w and len(d0["layers"]) >= 2 and any(o["sel"] > 0 for o in ops):
                 # the same history on the document with an own-line comment after every `in' (layer trivia)
                 cases.append({"id": len(cases) + 1, "text": render_doc(d0, in_comments=True), "wrap": w, "ops": ops})
@@ -144,7 +170,7 @@ def suite_cases(start_id: int) -> list[dict]:
         v = val_of(e["value"]) if e["ev"] == "set" and isinstance(e.get("value"), str) else {"k": "int", "v": 0}
         if v.get("k") == "none":
             continue
-        op = {"f": e["ev"], "sel": np_[0], "path": np_[1], "v": v, "npath": e["npath"], "vtext": e.get("value", "")}
+        op = {"f": e["ev"], "sel": np_[0], "path": np_[1], "v": v, "bad": "", "npath": e["npath"], "vtext": e.get("value", "")}
         step = {"res": e["res"], "cur": e["post"], "again": e["post"], "same_snap": True}
         if e["res"] == "ok":
             step["ret"] = e["post"]
@@ -212,35 +238,45 @@ def path_class(items: list, path: list[str]) -> str:
     return ("family_fresh" if fam else "fresh") + str(min(len(path), 3))
 
 
+def project_case(c: dict):
+    """Project every observed step of one history (runs in pool workers: pure CST work, no code under test)."""
+    r = c["r"]
+    if "fail" in r:
+        return None
+    seed_doc = doc(r["text0"])      # the state the in-memory object itself rebuilds to before any operation
+    steps = []
+    prev_text = r["text0"]
+    canon = r["text0"] == c["text"]
+    for op, st in zip(c["ops"], r["steps"]):
+        if "cur" not in st:
+            break
+        cur = st["cur"]
+        vc = doc(op["vtext"] + "\n")["allc"] if op.get("vform") else []
+        e = {"op": {"f": op["f"], "sel": op["sel"], "path": op["path"], "v": op["v"], "bad": op.get("bad", ""), "vc": vc},
+             "res": st["res"], "post": doc(cur),
+             "valid": not has_error_mod_tc(cur),
+             "same_text": cur == prev_text and st.get("again") == cur,
+             "same_snap": bool(st.get("same_snap", True)),
+             "canon": canon,
+             "region_ok": region_ok(prev_text, cur, op["f"], st["res"]) if st["res"] == "ok" else True,
+             "stable": st.get("reparsed", cur) == st.get("ret", cur) and "reparse_fail" not in st,
+             "coherent": st["res"] != "ok" or st.get("ret") == cur}
+        steps.append(e)
+        canon = e["stable"] and e["valid"]
+        prev_text = cur
+    return {"seed": seed_doc, "steps": steps}
+
+
 def build_lines(cases: list[dict]) -> list[str]:
     """Project every observed step; one ndjson line per history."""
     lines = []
-    for c in cases:
-        r = c["r"]
-        if "fail" in r:
+    proj = pmap("harness.engines.edit", "project_case",
+                [{"text": c["text"], "ops": c["ops"], "r": c["r"]} for c in cases], chunk=200)
+    for c, pr in zip(cases, proj):
+        if pr is None:
             continue
-        seed_doc = doc(r["text0"])      # the state the in-memory object itself rebuilds to before any operation
-        steps = []
-        prev_text = r["text0"]
-        canon = r["text0"] == c["text"]
-        for op, st in zip(c["ops"], r["steps"]):
-            if "cur" not in st:
-                break
-            cur = st["cur"]
-            e = {"op": {"f": op["f"], "sel": op["sel"], "path": op["path"], "v": op["v"]},
-                 "res": st["res"], "post": doc(cur),
-                 "valid": not has_error_mod_tc(cur),
-                 "same_text": cur == prev_text and st.get("again") == cur,
-                 "same_snap": bool(st.get("same_snap", True)),
-                 "canon": canon,
-                 "region_ok": region_ok(prev_text, cur, op["f"], st["res"]) if st["res"] == "ok" else True,
-                 "stable": st.get("reparsed", cur) == st.get("ret", cur) and "reparse_fail" not in st,
-                 "coherent": st["res"] != "ok" or st.get("ret") == cur}
-            steps.append(e)
-            canon = e["stable"] and e["valid"]
-            prev_text = cur
-        c["events"] = steps
-        lines.append(json.dumps({"id": c["id"], "seed": seed_doc, "steps": steps}, ensure_ascii=False))
+        c["events"] = pr["steps"]
+        lines.append(json.dumps({"id": c["id"], "seed": pr["seed"], "steps": pr["steps"]}, ensure_ascii=False))
     return lines
 
 
